@@ -502,5 +502,13 @@ def rule_i(ctx: Ctx) -> None:
     overlap_siblings(ctx, 'C01.i')
 
 
-RULES = [rule_a, rule_b, rule_c, rule_d, rule_e, rule_f, rule_g, rule_h, rule_i]
+def rule_j(ctx: Ctx) -> None:
+    """XSD 1.1: in an xs:all (or choice) group a wildcard and a sibling element that it also matches are both legal; the child belongs to the *element*.  That
+    precedence is registered by check_model at schema build (add_precedence) on the branch that handles overlapping siblings - if the registration is skipped the
+    wildcard swallows the element and a word of the model (`a b` for all(any, a)) is rejected.  C15.d body."""
+    from .c15 import rule_d as precedence_registered
+    precedence_registered(ctx, 'C01.j')
+
+
+RULES = [rule_a, rule_b, rule_c, rule_d, rule_e, rule_f, rule_g, rule_h, rule_i, rule_j]
 THOROUGH = [thorough_a]
